@@ -83,7 +83,7 @@ func init() {
 			} else {
 				select {
 				case <-ch:
-				case <-time.After(80 * time.Millisecond):
+				case <-time.After(400 * time.Millisecond):
 				}
 			}
 		} else {
